@@ -812,5 +812,13 @@ seed("c11-keyword-case", "C11", "R-args-single-equals", "parse.go",
 seed("c12-mechanism-case", "C12", "R-cmd-gates-agree", "conn.go",
 "	mechanism := strings.ToUpper(parts[0])", "	mechanism := parts[0]", "advertised mechanism refused when spelled in lower case")
 
+seed("c19-limit-raised-for-sasl", "C19", "R-linelimit-restored", "conn.go",
+"""	response := ir
+	for {
+		challenge, done, err := sasl.Next(response)""", """	c.lineLimitReader.LineLimit = 12288
+	response := ir
+	for {
+		challenge, done, err := sasl.Next(response)""", "limit raised in handleAuth and never restored")
+
 json.dump(S, open(os.path.join(os.path.dirname(os.path.abspath(__file__)), "bank.json"), "w"), indent=1)
 print(len(S), "seeds")
